@@ -311,6 +311,11 @@ func cells(ks []*kindSpec) []*cell {
 	deliver("struct", clZero, "S{}", c09t.S{}, c09t.S{}, sv)
 	deliver("struct", clNonZero, "S{1,2,true}", sv, sv, sv2, c09t.S{})
 	deliver("struct", clStandinS, "twin{1,2,true}", twin{1, 2, true}, sv, sv2, c09t.S{})
+	deliver("struct", clStandinS, "struct{A int64; B int32; C bool}{1,2,true} (unnamed, assignable)", struct {
+		A int64
+		B int32
+		C bool
+	}{1, 2, true}, sv, sv2, c09t.S{})
 	open("struct", clSameSize, "[2]int64{}", [2]int64{}, whySameSize)
 	open("struct", clSameSize, "other16{}", other16{}, whySameSize+" (same size, other field layout)")
 	reject("struct", clSmaller, "s8{}", s8{})
